@@ -4,8 +4,9 @@
   clauses "handling can never trigger itself" and "any other change does count" one level above the diff.
 
   `detect` / `storeGuard` / `afterCycle` / `fieldChanged` mirror causes.detect_changing_cause,
-  processing.process_changing_cause and registries._matches_field_changes (Model/C04_Cycle.lean); they
-  are tied to the real cycle by the `life` cases of the harness (the handlers called, the state stored).
+  processing.process_changing_cause and registries._matches_field_changes (Model/C04_Cycle.lean) as of kopf
+  8d1358b; they are tied to the real cycle by the `life` cases of the harness (the handlers called, the
+  state stored). The `…Py` variants are the code before 8d1358b (finding C04-F12, fixed): regressions.
 -/
 import Kopf.Props.C04
 import Kopf.Lemmas.C04_Cycle
@@ -40,12 +41,19 @@ theorem settled_after_store (old : Option J) (new : J) (h : J.WF new) (hg : stor
     have ha : afterCycle old new = some new := by simp only [afterCycle, hd, hg]; rfl
     rw [ha]; exact hself
 
-/-- **an update settles** — partial. Full statement (FALSE of the code, see `stale_last_handled_witness`):
-      ∀ old new, WF old → WF new → detect (afterCycle (some old) new) new = .noop.
-    Proved under `noBool old ∧ noBool new` (a guard broader than the gap, which is a value changing
-    between a boolean and the number Python equates with it): the guard `cause.old != cause.new` is
-    Python's `!=`, while the cause was detected with `diffs._same`. -/
-theorem update_settles_partial (old new : J) (hn : J.WF new) (hbo : noBool old = true) (hbn : noBool new = true) :
+/-- an UPDATE always passes the store guard (the guard looks at the very diff that made it an UPDATE). -/
+theorem update_is_stored (old new : J) (hd : detect (some old) new = .update) :
+    afterCycle (some old) new = some new := by
+  have hne : (diff old new []).isEmpty = false := by
+    cases he : (diff old new []).isEmpty with
+    | false => rfl
+    | true => simp [detect, he] at hd
+  simp [afterCycle, hd, storeGuard, hne]
+
+/-- **an update settles** (full strength since kopf 8d1358b; was `update_settles_partial` under a no-boolean
+    guard): whatever the last-handled state and the new essence are, after the finished cycle the event
+    that the cycle's own patch brings — the same essence again — is a NOOP: handling never triggers itself. -/
+theorem update_settles (old new : J) (hn : J.WF new) :
     detect (afterCycle (some old) new) new = .noop := by
   cases hd : detect (some old) new with
   | noop => exact (noop_is_stable (some old) new hd).2
@@ -53,34 +61,42 @@ theorem update_settles_partial (old new : J) (hn : J.WF new) (hbo : noBool old =
     simp only [detect] at hd
     split at hd <;> cases hd
   | update =>
-    refine settled_after_store (some old) new hn ?_
-    have hne : diff old new [] ≠ [] := by
-      intro he
-      simp [detect, he] at hd
-    have hs := same_false_of_diff_ne hne
-    simp [storeGuard, pyEq_eq_same old hbo new hbn, hs]
+    rw [update_is_stored old new hd]
+    simp [detect, diff_self_empty new [] hn]
 
-example : noBool (.obj [("spec", .obj [("n", .num 1), ("l", .arr [.str "x", .null])])]) = true := by decide
+example : detect (some (.obj [("spec", .obj [("n", .num 1)])])) (.obj [("spec", .obj [("n", .num 2)])]) = .update := by decide
 
-/-- C04-F12 (a): `spec.flag: 1 → true` is an UPDATE, its handlers run, the guard `old != new` is false
-    (`1 == True`), the state is NOT refreshed: the next event — any event — is the same UPDATE again. -/
+/-- the other side of the new guard `old != new or diff`: it lets a store through only when the two essences
+    really differ as JSON values — a state equal to the stored one is never stored again (no write loop:
+    a non-empty diff without an essential difference does not exist, `same_false_of_diff_ne`). -/
+theorem store_only_on_difference (old new : J) (hg : storeGuard (some old) new = true) : same old new = false := by
+  cases hs : same old new with
+  | false => rfl
+  | true =>
+    have h1 : pyEq old new = true := pyEq_of_same old new hs
+    have h2 : diff old new [] = [] := diff_of_pyEq [] hs
+    simp [storeGuard, h1, h2] at hg
+
+/-- C04-F12 (a), fixed by kopf 8d1358b — regression of the old variant: `spec.flag: 1 → true` is an UPDATE,
+    its handlers run; the old guard `old != new` was false (`1 == True`), the state was NOT refreshed and
+    the next event — any event — was the same UPDATE again. With the guard of today the state is refreshed. -/
 def flagOne : J := .obj [("spec", .obj [("flag", .num 1)])]
 def flagTrue : J := .obj [("spec", .obj [("flag", .bool true)])]
 
 theorem stale_last_handled_witness :
-    detect (some flagOne) flagTrue = .update ∧ afterCycle (some flagOne) flagTrue = some flagOne
-      ∧ detect (afterCycle (some flagOne) flagTrue) flagTrue = .update := by
-  refine ⟨by decide, by rfl, by decide⟩
+    detect (some flagOne) flagTrue = .update
+      ∧ afterCyclePy (some flagOne) flagTrue = some flagOne
+      ∧ detect (afterCyclePy (some flagOne) flagTrue) flagTrue = .update
+      ∧ afterCycle (some flagOne) flagTrue = some flagTrue
+      ∧ detect (afterCycle (some flagOne) flagTrue) flagTrue = .noop := by
+  refine ⟨by decide, by rfl, by decide, by rfl, by decide⟩
 
-/-- **a field handler whose field changed is selected** — partial. Full statement (FALSE of the code, see
-    `field_handler_not_selected_witness`): reduce (diff old new []) f ≠ [] → fieldChanged old new f = true.
-    Proved for fields whose old and new values hold no boolean. (`reduce (diff old new []) f` is the `diff`
-    kwarg the handler would get: `reduce_exact`.) -/
-theorem field_handler_selected_partial (old new : J) (f : Path) (ho : J.WF old) (hn : J.WF new)
-    (hbo : noBool (resolveD old f) = true) (hbn : noBool (resolveD new f) = true)
+/-- **a field handler whose field changed is selected** (full strength since kopf 8d1358b; was
+    `field_handler_selected_partial` for boolean-free values): whenever the diff narrowed to the handler's
+    field — the `diff` kwarg it would get, `reduce_exact` — is not empty, the field counts as changed. -/
+theorem field_handler_selected (old new : J) (f : Path) (ho : J.WF old) (hn : J.WF new)
     (h : reduce (diff old new []) f ≠ []) : fieldChanged old new f = true := by
   rw [reduce_exact old new f ho hn] at h
-  have hs := same_false_of_diff_ne h
   unfold fieldChanged
   cases hro : resolve? old f with
   | none =>
@@ -93,11 +109,30 @@ theorem field_handler_selected_partial (old new : J) (f : Path) (ho : J.WF old) 
     cases hrn : resolve? new f with
     | none => rfl
     | some y =>
-      simp only [resolveD, hro, hrn, Option.getD] at hs hbo hbn
-      simp [pyEq_eq_same x hbo y hbn, hs]
+      simp only [resolveD, hro, hrn, Option.getD] at h
+      have : (diff x y []).isEmpty = false := by
+        cases hd : diff x y [] with
+        | nil => exact absurd hd h
+        | cons a l => rfl
+      simp [this]
+
+/-- … and then the handler IS selected: the whole cause is an UPDATE as well. -/
+theorem field_handler_called (old new : J) (f : Path) (ho : J.WF old) (hn : J.WF new)
+    (h : reduce (diff old new []) f ≠ []) : selected old new f = true := by
+  have hd : diff old new [] ≠ [] := by
+    intro he; rw [he] at h; exact h rfl
+  have hu : detect (some old) new = .update := by
+    cases hdd : diff old new [] with
+    | nil => exact absurd hdd hd
+    | cons a l => simp [detect, hdd]
+  simp [selected, hu, field_handler_selected old new f ho hn h]
+
+example : reduce (diff (.obj [("spec", .obj [("n", .num 1)])]) (.obj [("spec", .obj [("n", .num 2)])]) []) ["spec", "n"] ≠ [] := by
+  decide
 
 /-- the other direction, without any guard: a field whose value is JSON-equal on both sides (or absent on
-    both) never selects its handler — Python's `==` is coarser than JSON equality, never finer. -/
+    both) never selects its handler — the diff of JSON-equal values is empty and Python's `==` is coarser
+    than JSON equality, never finer. -/
 theorem unchanged_field_not_selected (old new : J) (f : Path)
     (h : match resolve? old f, resolve? new f with
          | none, none => True
@@ -112,15 +147,17 @@ theorem unchanged_field_not_selected (old new : J) (f : Path)
     | none => simp [hro, hrn] at h
     | some y =>
       simp only [hro, hrn] at h
-      simp [pyEq_of_same x y h]
+      simp [pyEq_of_same x y h, diff_of_pyEq (a := x) (b := y) [] h]
 
-/-- C04-F12 (b): the handler on exactly the field that changed `1 → true` is not selected, although the
-    diff narrowed to its field is not empty. -/
+/-- C04-F12 (b), fixed by kopf 8d1358b — regression of the old variant: the handler on exactly the field that
+    changed `1 → true` was not selected by `old != new`, although the diff narrowed to its field is not empty;
+    today it is. -/
 theorem field_handler_not_selected_witness :
     (reduce (diff flagOne flagTrue []) ["spec", "flag"]).length = 1
-      ∧ fieldChanged flagOne flagTrue ["spec", "flag"] = false
-      ∧ selected flagOne flagTrue ["spec", "flag"] = false := by
-  refine ⟨by decide, by decide, by decide⟩
+      ∧ fieldChangedPy flagOne flagTrue ["spec", "flag"] = false
+      ∧ fieldChanged flagOne flagTrue ["spec", "flag"] = true
+      ∧ selected flagOne flagTrue ["spec", "flag"] = true := by
+  refine ⟨by decide, by decide, by decide, by decide⟩
 
 example : fieldChanged (.obj [("spec", .obj [("n", .num 1)])]) (.obj [("spec", .obj [("n", .num 2)])]) ["spec", "n"] = true := by
   decide
